@@ -197,6 +197,35 @@ func checkFanoutWorker(c *Ctx, rule string, b *Body, semNames map[string]bool) {
 		c.fail(rule+".release-deferred", key, p.Pos(badPos), bad+": the coordinator's done signal can overtake a result/error send and the collector loses it")
 		return
 	}
+	// (w2) results and errors are handed over with blocking sends: a send placed in a select with a default clause is
+	// dropped whenever the collector is busy
+	dropped := false
+	var dropPos token.Pos
+	ast.Inspect(b.Block, func(n ast.Node) bool {
+		sel, ok := n.(*ast.SelectStmt)
+		if !ok {
+			return true
+		}
+		hasDefault, hasSend := false, false
+		for _, st := range sel.Body.List {
+			cc := st.(*ast.CommClause)
+			if cc.Comm == nil {
+				hasDefault = true
+			}
+			if snd, ok := cc.Comm.(*ast.SendStmt); ok && !isStructChan(info.TypeOf(snd.Chan)) {
+				hasSend = true
+			}
+		}
+		if hasDefault && hasSend {
+			dropped, dropPos = true, sel.Pos()
+		}
+		return true
+	})
+	if dropped {
+		c.fail(rule+".blocking-sends", key, p.Pos(dropPos), "a worker hands its result/error over with a non-blocking send (select with default): when the collector is busy (e.g. writing an index file) the value is dropped and the operation reports success without it")
+	} else {
+		c.ok(rule+".blocking-sends", key, p.Pos(relPos), "results and errors are handed over with blocking sends")
+	}
 	c.ok(rule+".release-deferred", key, p.Pos(relPos), "slot released only by a top-level defer registered before any send can execute: every send of the worker happens before the release")
 }
 
